@@ -25,10 +25,10 @@
 (*                   (evidence, not a proof, that B is complete for the class: BS0 < B)              *)
 (* What is model-checked is exactly the above on the enumerated class; soundness of the T-spec       *)
 (* verdicts never depends on box completeness (a point found in a box is a genuine solution).        *)
-(* The universe is written as vectors (POSTCONDITION Emit) and replayed into the real code.          *)
+(* The universe is written as vectors (EmitSpec, POSTCONDITION Emit) and replayed into the real code.*)
 EXTENDS C16_LinCore, TLC, Json, IOUtils, SequencesExt
 
-CONSTANTS Coef2, Const2, MinC, MaxC, CoefA3, CoefB3, Const3, B, BU, BS, BS0, K, Emitting
+CONSTANTS Coef2, Const2, MinC, MaxC, CoefA3, CoefB3, Const3, B, BU, BS, BS0, K
 \* value sets for the cfg files (a cfg cannot contain negative literals)
 R22 == (-2)..2
 R33 == (-3)..3
@@ -98,10 +98,15 @@ SpecialisationOK == kind = "none" /\ Len(orig) = 2 /\ orig[1][3] = 1 =>
                          /\ RatSat(rs, NV, {1, 2, 3}, 3) = (\E d \in {1, 2, 3} : \E a \in (-3)..3 : \E b \in (-3)..3 : AllH(O, a, b, d))
                          /\ fl = rs         \* a.x >= b  written  -a.x <= -b  has the same canonical row
 
-Emit == IF Emitting
-        THEN LET ss == SetToSeq(Systems) IN
-             /\ MinC = 1 /\ TLCGet("distinct") >= 4 * Len(ss)
-             /\ ndJsonSerialize(IOEnv.VECTOR_FILE, [i \in 1..Len(ss) |-> [m |-> ss[i]]])
-             /\ PrintT(<<"systems", Len(ss)>>)
-        ELSE TRUE
+\* every started system belongs to the emitted class, and (post-condition of the exploring run) there are at least
+\* as many states as the class needs (one "none" state and three started states per system)
+OrigInClass == kind # "none" => orig \in Systems
+Covered == MinC > 1 \/ TLCGet("distinct") >= 4 * Cardinality(Systems)
+\* the class itself, written as vectors by a run of EmitSpec (same module, same constants, no exploration) so that the
+\* replay into the code can proceed while TLC explores Spec
+EmitSpec == Init /\ [][FALSE]_vars
+Emit == LET ss == SetToSeq(Systems) IN
+        /\ TLCGet("distinct") >= 1
+        /\ ndJsonSerialize(IOEnv.VECTOR_FILE, [i \in 1..Len(ss) |-> [m |-> ss[i]]])
+        /\ PrintT(<<"systems", Len(ss)>>)
 =============================================================================
